@@ -112,8 +112,9 @@ type endpointInfo struct {
 	aead      cipher.AEAD
 	d, p      int
 	mtu       int
-	prevMtu   int   // MTU before the last change, honoured for datagrams already queued at the instant of the change
-	mtuAt     int64
+	prevMtu   int   // largest MTU in force at any moment of the (virtual) instant mtuAt: honoured for datagrams built at that instant
+	mtuAt     int64 // before a SetMtu returned and handed to the transport, by another goroutine, just after
+	unknownMtu bool            // see ForgetMtu
 	pendMtu   int              // a SetMtu call is in progress with this value (0 = none): until it returns either MTU may be in force
 	groupMtu  map[int64]int    // FEC group (first id) -> largest MTU in force when one of its data packets was sent
 	fecBase   int64 // first FEC id seen
@@ -175,6 +176,16 @@ func (m *Monitor) BeginSetMtu(src, dst string, mtu int) {
 	m.mu.Unlock()
 }
 
+// ForgetMtu: from now on datagrams from src to dst may come from a session the application never configured (the listener
+// creates a fresh one, with the default MTU, for a peer that keeps transmitting to a session the application has closed).
+func (m *Monitor) ForgetMtu(src, dst string) {
+	m.mu.Lock()
+	if ep := m.eps[flow(src, dst)]; ep != nil {
+		ep.mtu, ep.prevMtu, ep.pendMtu, ep.unknownMtu = 0, 0, 0, true
+	}
+	m.mu.Unlock()
+}
+
 func (m *Monitor) EndSetMtu(src, dst string) {
 	m.mu.Lock()
 	if ep := m.eps[flow(src, dst)]; ep != nil {
@@ -189,7 +200,11 @@ func (m *Monitor) SetMtu(src, dst string, mtu int) {
 		if mtu > 1500 {
 			mtu = 1500
 		}
-		ep.prevMtu, ep.mtuAt = ep.mtu, int64(time.Since(m.start)/time.Millisecond)
+		now := int64(time.Since(m.start) / time.Millisecond)
+		if ep.mtuAt != now || ep.prevMtu < ep.mtu { // (several changes may happen at one instant)
+			ep.prevMtu = ep.mtu
+		}
+		ep.mtuAt = now
 		ep.mtu = mtu
 		ep.pendMtu = 0
 	}
@@ -248,6 +263,9 @@ func (m *Monitor) Observe(d *simnet.Dgram) {
 	}
 	if ep.pendMtu > o.Mtu {
 		o.Mtu = ep.pendMtu // SetMtu is executing right now
+	}
+	if ep.unknownMtu {
+		o.Mtu = 0
 	}
 	o.FD, o.FP = ep.d, ep.p
 	plain, nonce, ok := m.decrypt(ep, d.Data)
